@@ -27,6 +27,7 @@ var vfC11Kinds = []string{"OPEN", "OPEN", "OPEN", "OPENDIR", "OPENDIR", "CLOSE",
 
 func vfGenC11Session(t *rapid.T) vfCaseC11 {
 	c := vfCaseC11{Srv: vfGenSrvCfg(t)}
+	vfMaybeReadOnly(t, &c.Srv)
 	c.Srv.CloseKeepsRead = rapid.Bool().Draw(t, "closekeepsread")
 	c.FailOpen = rapid.Bool().Draw(t, "failopen")
 	c.CloseErr = rapid.IntRange(0, 2).Draw(t, "closeerr") == 0
